@@ -1,6 +1,7 @@
 """Validation of the converter specification and translation on generated databases (run: python3 -m vlib.try_conv [n] [seed]).
 
-For databases of `vlib/props/c16.py` (`make_case`: GenDB + a valid compressed proof):
+For databases of `vlib/props/c16.py` (`make_case`: GenDB + a valid compressed proof; `make_ncase`: the same with DECLARED NOTATIONS,
+`$a #Notation ( n v… ) BODY $.`, `vlib/mmgen3.py` — there `dbOfMDb` must deliver the bodies (`Ctor.body`) the check's model has):
   1. the model database the check builds from the GENERATOR's knowledge (`c16.model_spec`) is compared with the specification
      `MM.ConvSpec.dbOfMDb` applied to the database as the REAL parser delivers it (driver command `mmdb`): floats, imp/app arguments,
      constructors, rules, proof rules, goal, label list, steps — modulo the numbering of constants (`s<N>` -> position among `$c`)
@@ -38,9 +39,13 @@ EXTRA = [
 ]
 
 
+OUTSIDE_NOTATION = [0]   # notation databases on which the generated converter answered `(outside)` (last `compare`)
+
+
 def compare(cases, extra=()):
     """findings (dicts with `key`, `what`, …) and counters for the cases of `c16.make_case`"""
     srcs = []
+    OUTSIDE_NOTATION[0] = 0
     for c in cases:
         for name, src in c['sources'].items():
             srcs.append((src, 'goal', c, name))
@@ -73,7 +78,12 @@ def compare(cases, extra=()):
     for k, (s, t, c, name, real) in enumerate(keep):
         spec, conv = ans[2 * k], ans[2 * k + 1]
         n_conv += 1
-        if conv != real:
+        if c is not None and c.get('notations') and conv == '(outside)':
+            # the GENERATED converter does not cover `#Notation` statements: `MetamathConverter._add_notation` is in transconv.OUTSIDE
+            # (listed in the header of Pi2/Gen/MMConv.lean), so `_import_axiom` of a sugar axiom is `Res.outside` — not an answer that
+            # differs from the real converter's, but no answer; counted, and reported by c16 as coverage
+            OUTSIDE_NOTATION[0] += 1
+        elif conv != real:
             findings.append({'key': 'converter-differs', 'database': s[-1500:], 'lean': conv[:1500], 'python': real[:1500],
                              'what': 'correspondence: the generated converter (Pi2/Gen/MMConv.lean) and the real MetamathConverter answer a query differently'})
         if c is None:
@@ -86,17 +96,23 @@ def compare(cases, extra=()):
         x = sx.parse(spec)[0]
         consts = [bytes.fromhex(a[1:]).decode() for a in x[5][1]]
         want = c['specs'][name]
-        want = re.sub(r'\(con (\d+)', lambda m: '(con %d' % consts.index('s' + m.group(1)), want)
+        # the check numbers constants `s<k>` by k and declared notations `n<k>` by 1000 + k (`c16.sym_id`); `dbOfMDb` by position among `$c`
+        def cidx(k):
+            k = int(k)
+            return consts.index('n%d' % (k - 1000) if k >= 1000 else 's%d' % k)
+        want = re.sub(r'\(con (\d+)', lambda m: '(con %d' % cidx(m.group(1)), want)
         wx = sx.parse('(' + want + ')')[0]
         wdb = list(wx[0])
-        wdb[4] = ['ctors'] + [[str(consts.index('s' + cc[0])), cc[1]] for cc in wdb[4][1:]]
+        # constructor entries `(sym (args))` / `(sym (args) (body TERM))`: the body's constants are renumbered by the substitution above
+        wdb[4] = ['ctors'] + [[str(cidx(cc[0]))] + list(cc[1:]) for cc in wdb[4][1:]]
         if not c['db'].with_app:
             wdb[3] = x[1][3]
         frag = x[-2]
         if x[-3] != ['shape', 'true']:
             findings.append({'key': 'not-in-shape', 'database': s[-1500:], 'shape': str(x[-3]),
                              'what': 'a generated database does not satisfy MM.ConvSpec.FragmentShape (hypothesis of converter_text_is_the_model_of_shape / translation_text_is_the_model_of_shape)'})
-        if frag[:2] != ['frag', 'true']:
+        # the run-time fragment of the converter TIE (ConvTie.InFragmentX) is notation-free: evaluated on the notation-free cases only
+        if frag[:2] != ['frag', 'true'] and not c.get('notations'):
             findings.append({'key': 'not-in-fragment', 'database': s[-1500:], 'frag': str(frag),
                              'what': 'a generated database does not satisfy ConvTie.InFragmentX (hypothesis of converter_text_is_the_model / translation_text_is_the_model)'})
         if not (wdb == x[1] and wx[1] == x[2] and wx[2] == x[3] and wx[3] == x[4]) or x[-1] != ['wf', 'true']:
@@ -107,11 +123,12 @@ def compare(cases, extra=()):
 
 def run(n=60, seed=1):
     rng = random.Random(seed)
-    cases = [c16.make_case(rng, True) for _ in range(n)]
+    cases = [c16.make_case(rng, True) for _ in range(n)] + [c16.make_ncase(rng, True) for _ in range(n)]
     findings, n_spec, n_conv = compare(cases, EXTRA)
     for f in findings:
         print(json.dumps(f, indent=1)[:3000])
-    print(f'try_conv: {n_spec} spec comparisons, {n_conv} converter comparisons, {len(findings)} disagreements')
+    print(f'try_conv: {n_spec} spec comparisons, {n_conv} converter comparisons ({OUTSIDE_NOTATION[0]} of them: generated converter outside its '
+          f'fragment on a #Notation database), {len(findings)} disagreements')
     return len(findings)
 
 
